@@ -758,6 +758,28 @@ mut("C24", "no_visited_guard", CG, """        if nodes_reachable_from_source.ins
             }""", ["R2|traversal0|expand-on-first-visit"], "expansion bounded by stack size instead of the visited set")
 mut("C24", "first_block_only", CG, "        for block in &sub.term.blocks {\n            for jump in &block.term.jmps {", "        for block in sub.term.blocks.iter().take(1) {\n            for jump in &block.term.jmps {", ["R1|edges|all-subs-blocks-jumps"], "only calls in entry blocks become edges")
 
+# ---------------- C23
+mut("C23", "sort_removed", MAIN, "    all_cwes.sort();\n", "", ["R2|final-sort"], "final sort removed")
+mut("C23", "first_isolated_return_only", L + "checkers/cwe_252/isolated_returns.rs", """                            .map(|state| (state.unwrap_value(), calling_convention, ret_insn_tid))
+                    },
+                )
+        {""", """                            .map(|state| (state.unwrap_value(), calling_convention, ret_insn_tid))
+                    },
+                )
+                .take(1)
+        {""", ["R1|", "analyze"], "only the first isolated return (in hash order) is examined")
+mut("C23", "warnings_in_hashmap_first", L + "checkers/cwe_476.rs", """    let cwe_warnings = cwe_warnings.into_values().collect();
+
+    (Vec::new(), cwe_warnings)""", """    let by_symbol: std::collections::HashMap<String, CweWarning> = cwe_warnings.into_values().map(|w| (w.symbols.first().cloned().unwrap_or_default(), w)).collect();
+    let cwe_warnings: Vec<CweWarning> = by_symbol.into_values().take(1000).collect();
+
+    (Vec::new(), cwe_warnings)""", ["R1|", "check_cwe"], "warnings truncated after a pass through a hash map")
+mut("C23", "sort_only_text_mode", MAIN, "    all_cwes.sort();\n", "    if !args.json {\n        all_cwes.sort();\n    }\n", ["R2|final-sort"], "JSON output unsorted")
+mut("C23", "SILENT_helper_variable", MAIN, """    let mut all_cwes = Vec::new();
+    for module in modules {""", """    let mut all_cwes = Vec::new();
+    let mut unsorted = Vec::new();
+    for module in modules {""", [], "helper variable only (must NOT be reported)")
+
 for prop, name, spec in M:
     if name.startswith("SILENT_"):
         spec["silent"] = True
